@@ -93,13 +93,18 @@ func checkRoundTrip(spec *EnvSpec, rig *rtRig, wsVariant int, o *Outcome) {
 		if len(bytes.TrimSpace(prev[1:len(prev)-1])) == 0 {
 			sep = ""
 		}
-		refused := append(append([]byte{}, prev[:len(prev)-1]...), []byte(sep+`"event":"#no-such-event#"}`+"\n")...)
+		tail := `"event":"#no-such-event#"}`
+		if wsVariant%4 == 3 {
+			// second flavour: a member of the wrong JSON type (the decoder itself refuses the value, having stored the others)
+			tail = `"id":7}`
+		}
+		refused := append(append([]byte{}, prev[:len(prev)-1]...), []byte(sep+tail+"\n")...)
 		if _, err := rig.raw.Write(refused); err != nil {
 			o.Fail("C01/harness/feed", "%v", err)
 			return
 		}
 		if e, err := TReceive(ctx, rig.rawRecv); err == nil {
-			o.Fail("C01/transport-receive/refused-envelope-returned", "an envelope with an unknown event was returned as %T | wire=%s", e, truncate(string(refused), 300))
+			o.Fail("C01/transport-receive/refused-envelope-returned", "an envelope with an unknown event / a numeric id was returned as %T | wire=%s", e, truncate(string(refused), 300))
 		}
 		o.Class("after-refused-envelope")
 		if !rig.rawRecv.Connected() {
